@@ -59,7 +59,7 @@ func main() {
 			run.Inconclusive(err.Error())
 			return
 		}
-		_ = h
+		h.Close()
 		_ = lastAccepted
 	})
 	// discriminating refreshes: own small witnesses, waits in parallel
